@@ -4,6 +4,10 @@ Correspondence: Model/Sdk/{Merkle,Patricia,TxHash}.lean (through the driver, H :
 against symbolchain.symbol.Merkle, facade.SymbolFacade, facade.NemFacade, BufferReader; direct evaluation of the
 property on the implementation against an independent statement of the definitions written here with hashlib
 (and a 30-line Keccak-f[1600] for Keccak-256, self-checked against hashlib.sha3_256 on every run).
+
+The model's functions are pure, the implementation's objects are mutable: besides single calls the run plays *histories* (use an
+object, edit it in place, use it again: tree nodes, MerkleHashBuilder, prove_merkle arguments, transactions) and requires the last
+answer to be the definition's answer for the current contents (= fresh objects with those contents = the model).
 """
 import hashlib
 import importlib
@@ -22,7 +26,12 @@ RULE = (
 	'replacements, random malformed proofs and buffers. The verdict expected is the one the tree implies (positions known by construction, '
 	'never found by hash search). Transactions: every descriptor of '
 	'/repo/sdk/python/examples/descriptors (Symbol and NEM) plus aggregates (complete/bonded, v1-v2, 0-3 cosignatures, 0-5 embedded), '
-	'signed; single-bit flips at every field class (covered/uncovered) of the serialized bytes. A case is distinct by its '
+	'signed; single-bit flips at every field class (covered/uncovered) of the serialized bytes. Histories (state carried between calls): '
+	'Patricia node objects proved or hashed once (also for another key, also deserialized ones), then one node edited in place (leaf value, '
+	'link flipped/pruned/added, two links swapped, path nibble) and hashed/proved again, edit-and-restore, no-edit repeats; MerkleHashBuilder '
+	'update/final/update/final(/final); prove_merkle arguments changed in place between calls (part replaced, Hash256.bytes of part/leaf/root '
+	'overwritten, part deleted, flag flipped, change undone); transactions of every catalogue descriptor hashed, a field edited in place '
+	'(deadline, fee, signature object or its bytes, cosignature popped/duplicated, transactions hash) and hashed again. A case is distinct by its '
 	'(operation, arguments) tuple; non-trivial = it reached the implementation and the oracle (and the model when the driver runs).')
 TRUSTED_BASE = [
 	'Lean 4.33 kernel; axioms of the property theorems: subset of {propext, Classical.choice, Quot.sound}',
@@ -41,6 +50,8 @@ ASSUMPTIONS = [
 	'hashlib.sha3_256().update(a); update(b) equals hashing a+b',
 	'Hash256 objects are truthy (no __bool__/__len__ on ByteArray), so `if child_hash` only tests for None',
 	'serialized transactions handed to the model are exactly transaction.serialize() of the objects hashed by the facades',
+	'the models are pure functions of their arguments; that the implementation answers for the current contents of mutable objects is '
+	'exercised by the histories (finite sample of edit kinds), not proved',
 ]
 
 EQUAL_SIBLING_SIGNATURE = 'prove_patricia_merkle:links.index:equal-sibling-hashes'
@@ -405,17 +416,21 @@ class Ops:
 		self.ctx = ctx
 		self.items = []
 
-	def add(self, line, impl_answer, direct_ok, what, signature=None, corr_only=False):
-		self.items.append((line, impl_answer, direct_ok, what, signature, corr_only))
+	def add(self, line, impl_answer, direct_ok, what, signature=None, corr_only=False, history=None):
+		self.items.append((line, impl_answer, direct_ok, what, signature, corr_only, history))
 
 	def settle(self):
 		ctx = self.ctx
 		lines = [item[0] for item in self.items]
 		answers = ask_batched(ctx.driver, lines) if ctx.driver else [None] * len(lines)
-		for (line, impl_answer, direct_ok, what, signature, _), model_answer in zip(self.items, answers):
+		for (line, impl_answer, direct_ok, what, signature, _, history), model_answer in zip(self.items, answers):
 			short = line if len(line) < 700 else line[:340] + ' ... ' + line[-340:]
 			sample = {'request': short, 'implementation': impl_answer, 'model': model_answer}
-			ctx.case(line, sample)
+			ctx.case(line if history is None else (line, repr(history)), sample)
+			if history is not None and direct_ok is False:
+				ctx.fail('property', f'{what}: implementation gives {impl_answer} on {short}', {
+					'request': line, 'implementation': impl_answer, 'model': model_answer, 'history': history})
+				continue
 			if direct_ok is False:
 				if signature is not None:
 					# a recorded finding: registered twice per signature, counted beyond that (the failure list is bounded)
@@ -1168,9 +1183,398 @@ def run_nem_transactions(ctx):
 # endregion
 
 
+# region histories: objects that are used, edited in place and used again
+# The model's functions are pure: every answer is a function of the current contents of the arguments. The implementation works on
+# mutable objects (tree nodes, builders, Hash256 values, transactions); a history uses an object, edits it in place and uses it again,
+# and the last answer must be the one the definitions give for the *current* contents - the same as for freshly built objects with
+# those contents and the same as the model's. A history is a list of steps (lists of strings), kept with a failure for replay.
+
+
+def play_patricia(steps):
+	"""returns (answer of the last step on the re-used objects, the same step on freshly built objects, oracle or None, driver request)"""
+	# pylint: disable=too-many-locals,too-many-branches,too-many-statements
+	from symbolchain.CryptoTypes import Hash256
+	from symbolchain.symbol import Merkle
+
+	def build(node):
+		if 'L' == node[0]:
+			return Merkle.LeafNode(Merkle.PatriciaTreePath(node[1], node[2]), Hash256(node[3]))
+		return Merkle.BranchNode(Merkle.PatriciaTreePath(node[1], node[2]), [None if link is None else Hash256(link) for link in node[3]])
+
+	def prove(objects, step):
+		key = unhx(step[1])
+		result = attempt(
+			Merkle.prove_patricia_merkle, Hash256(key) if 32 == len(key) else ByteKey(key), Hash256(unhx(step[2])), objects, Hash256(unhx(step[3])),
+			[Hash256(root) for root in parse_hashes(step[4])])
+		return f'ok {result[1].value}' if 'ok' == result[0] else 'none'
+
+	def node_hash(node):
+		result = attempt(node.calculate_hash)
+		return f'ok {hx(result[1].bytes)}' if 'ok' == result[0] else 'none'
+
+	objects = []
+	shadow = []
+	answer = None
+	for step in steps:
+		op = step[0]
+		if 'nodes' == op:
+			shadow = parse_nodes(step[1])
+			objects = [build(node) for node in shadow]
+		elif 'wire' == op:
+			objects = Merkle.deserialize_patricia_tree_nodes(unhx(step[1]))
+			shadow = o_deserialize(unhx(step[1]))[1]
+		elif 'prove' == op:
+			answer = prove(objects, step)
+		elif 'hash' == op:
+			answer = node_hash(objects[int(step[1])])
+		elif 'set_value' == op:
+			index = int(step[1])
+			objects[index].value = Hash256(unhx(step[2]))
+			shadow[index] = (shadow[index][0], shadow[index][1], shadow[index][2], unhx(step[2]))
+		elif 'set_link' == op:
+			index, slot = int(step[1]), int(step[2])
+			link = None if '_' == step[3] else unhx(step[3])
+			objects[index].links[slot] = None if link is None else Hash256(link)
+			links = list(shadow[index][3])
+			links[slot] = link
+			shadow[index] = (shadow[index][0], shadow[index][1], shadow[index][2], links)
+		elif 'swap_links' == op:
+			index, first, second = int(step[1]), int(step[2]), int(step[3])
+			links = objects[index].links
+			links[first], links[second] = links[second], links[first]
+			links = list(shadow[index][3])
+			links[first], links[second] = links[second], links[first]
+			shadow[index] = (shadow[index][0], shadow[index][1], shadow[index][2], links)
+		elif 'set_path' == op:
+			index = int(step[1])
+			objects[index].path = Merkle.PatriciaTreePath(unhx(step[2]), int(step[3]))
+			shadow[index] = (shadow[index][0], unhx(step[2]), int(step[3]), shadow[index][3])
+		else:
+			raise ValueError(f'unknown step {op}')
+	last = steps[-1]
+	fresh_objects = [build(node) for node in shadow]
+	if 'prove' == last[0]:
+		return answer, prove(fresh_objects, last), None, f'prove_patricia {last[1]} {last[2]} {fmt_nodes(shadow)} {last[3]} {last[4]}'
+	index = int(last[1])
+	expected = o_wire_hash(shadow[index])
+	return answer, node_hash(fresh_objects[index]), ('none' if expected is None else f'ok {hx(expected)}'), f'node_hash {fmt_node(shadow[index])}'
+
+
+def play_builder(steps):
+	from symbolchain.CryptoTypes import Hash256
+	from symbolchain.symbol.Merkle import MerkleHashBuilder
+	builder = MerkleHashBuilder()
+	answer = None
+	contents = []
+	for step in steps:
+		if 'update' == step[0]:
+			builder.update(Hash256(unhx(step[1])))
+		else:
+			contents = [bytes(item) for item in builder.hashes]
+			answer = hx(builder.final().bytes)
+	fresh = MerkleHashBuilder()
+	for item in contents:
+		fresh.update(Hash256(item))
+	return answer, hx(fresh.final().bytes), hx(o_root(contents)), f'merkle_build {fmt_hashes(contents)}'
+
+
+def play_prove_merkle(steps):
+	from symbolchain.CryptoTypes import Hash256
+	from symbolchain.symbol.Merkle import MerklePart, prove_merkle
+	leaf = root = None
+	path = []
+	answer = None
+	for step in steps:
+		op = step[0]
+		if 'make' == op:
+			leaf, root = Hash256(unhx(step[1])), Hash256(unhx(step[3]))
+			path = [MerklePart(Hash256(part), is_left) for part, is_left in parse_path(step[2])]
+		elif 'call' == op:
+			answer = 'true' if prove_merkle(leaf, path, root) else 'false'
+		elif 'set_part' == op:
+			path[int(step[1])] = MerklePart(Hash256(unhx(step[2])), 'L' == step[3])
+		elif 'set_part_bytes' == op:
+			path[int(step[1])].hash.bytes = unhx(step[2])
+		elif 'del_part' == op:
+			del path[int(step[1])]
+		elif 'set_leaf_bytes' == op:
+			leaf.bytes = unhx(step[1])
+		elif 'set_root_bytes' == op:
+			root.bytes = unhx(step[1])
+		else:
+			raise ValueError(f'unknown step {op}')
+	now_leaf, now_root = bytes(leaf.bytes), bytes(root.bytes)
+	now_path = [(bytes(part.hash.bytes), part.is_left) for part in path]
+	fresh = prove_merkle(Hash256(now_leaf), [MerklePart(Hash256(part), is_left) for part, is_left in now_path], Hash256(now_root))
+	return (
+		answer, 'true' if fresh else 'false', 'true' if o_fold(now_leaf, now_path) == now_root else 'false',
+		f'prove_merkle {hx(now_leaf)} {fmt_path(now_path)} {hx(now_root)}')
+
+
+def play_transaction(steps):
+	# pylint: disable=too-many-branches
+	facade = None
+	transaction = None
+	answer = None
+	is_nem = False
+	for step in steps:
+		op = step[0]
+		if 'load' == op:
+			is_nem = 'nem' == step[1]
+			if is_nem:
+				from symbolchain.facade.NemFacade import NemFacade
+				facade = NemFacade(step[2])
+			else:
+				from symbolchain.facade.SymbolFacade import SymbolFacade
+				facade = SymbolFacade(step[2])
+			transaction = facade.transaction_factory.deserialize(unhx(step[3]))
+		elif 'hash' == op:
+			answer = hx(facade.hash_transaction(transaction).bytes)
+		elif 'set' == op:
+			current = getattr(transaction, step[1])
+			if isinstance(current, (bytes, bytearray)):
+				setattr(transaction, step[1], unhx(step[2]))
+			elif hasattr(current, 'bytes'):
+				setattr(transaction, step[1], type(current)(unhx(step[2])))
+			else:
+				setattr(transaction, step[1], type(current)(int(step[2])))
+		elif 'set_bytes_in_place' == op:
+			getattr(transaction, step[1]).bytes = unhx(step[2])
+		elif 'pop_cosignature' == op:
+			transaction.cosignatures.pop()
+		elif 'dup_cosignature' == op:
+			transaction.cosignatures.append(transaction.cosignatures[0])
+		else:
+			raise ValueError(f'unknown step {op}')
+	buffer = transaction.serialize()
+	fresh = hx(facade.hash_transaction(facade.transaction_factory.deserialize(buffer)).bytes)
+	if is_nem:
+		return answer, fresh, hx(keccak256(buffer[:48] + buffer[116:])), f'nem_hash_serialized {hx(buffer)}'
+	seed = facade.network.generation_hash_seed.bytes
+	signature, signer = transaction.signature.bytes, transaction.signer_public_key.bytes
+	oracle = sha3(signature + signer + seed + symbol_window(buffer))
+	return answer, fresh, hx(oracle), f'symbol_hash {hx(signature)} {hx(signer)} {hx(seed)} {hx(buffer)}'
+
+
+PLAYERS = {'patricia': play_patricia, 'builder': play_builder, 'prove_merkle': play_prove_merkle, 'transaction': play_transaction}
+
+
+def judge_history(ops, ctx, domain, steps, what, expect=None):
+	"""plays a history; the last answer must equal the one for fresh objects with the current contents, the oracle's (when the
+	definition is a function of the request alone) and `expect` (the verdict implied by construction), and the model's."""
+	answer, fresh, oracle, request = PLAYERS[domain](steps)
+	if 'transaction' == domain and request.startswith('symbol_hash'):
+		answer, fresh, oracle = f'ok {answer}', f'ok {fresh}', f'ok {oracle}'  # the driver's answer format for an Option
+	direct = answer == fresh and (oracle is None or answer == oracle) and (expect is None or answer == expect)
+	detail = f'{what}: after the history {steps[:-1]!r} the call {steps[-1]!r} must answer for the current contents (fresh objects: {fresh}' \
+		+ (f', definition: {oracle}' if oracle is not None else '') + (f', implied by construction: {expect}' if expect is not None else '') + ')'
+	ops.add(request, answer, direct, detail[:1500], history={'domain': domain, 'steps': steps, 'expect': expect})
+	ctx.count(f'history:{domain}:' + ('as-current-contents' if direct else 'STALE'))
+	return answer
+
+
+def run_histories(ctx):
+	# pylint: disable=too-many-locals,too-many-statements,too-many-branches
+	rng = ctx.rng
+	ops = Ops(ctx)
+
+	# Patricia nodes: use (prove / hash), edit one node in place, use again
+	other_roots = [rng.bytes_(32) for _ in range(2)]
+	for _ in range(ctx.scale(250, 4000)):
+		length = rng.choice([4, 6, 64])
+		letters = rng.sample(range(16), rng.choice([2, 3, 16]))
+		keys = sorted({tuple(rng.choice(letters) for _ in range(length)) for _ in range(rng.choice([2, 3, 4, 5]))})
+		items = [(key, rng.bytes_(32)) for key in keys]
+		tree = build_canonical(items)
+		key = rng.choice(keys) if rng.random() < 0.7 else tuple(rng.choice(letters) for _ in range(length))
+		visited, steps_taken = o_lookup(tree, key)
+		nodes = [o_node(sub) for sub in visited]
+		root_hash = o_tree_hash(tree)
+		roots = [root_hash] + other_roots if rng.random() < 0.5 else other_roots[:1] + [root_hash]
+		state_hash = sha3(b''.join(roots))
+		last = visited[-1]
+		value = last[2] if 'L' == last[0] else rng.bytes_(32)
+		prove_step = ['prove', hx(pack(key)), hx(value), hx(state_hash), fmt_hashes(roots)]
+		start = ['nodes', fmt_nodes(nodes)] if rng.random() < 0.7 or any(node[2] > 255 for node in nodes) else ['wire', hx(wire(nodes))]
+		first_use = rng.choice(['prove', 'prove', 'hash-all', 'hash-one', 'prove-other-key'])
+		steps = [start]
+		if 'prove' == first_use:
+			steps.append(prove_step)
+		elif 'prove-other-key' == first_use:
+			steps.append(['prove', hx(pack(rng.choice(keys))), hx(rng.bytes_(32)), hx(state_hash), fmt_hashes(roots)])
+		elif 'hash-all' == first_use:
+			steps += [['hash', str(index)] for index in range(len(nodes))]
+		# no edit at all: the same objects proved twice (and for another key) answer as the first time
+		if rng.random() < 0.15:
+			other = rng.choice(keys)
+			steps.append(['prove', hx(pack(other)), hx(value), hx(state_hash), fmt_hashes(roots)])
+			steps.append(prove_step)
+			judge_history(ops, ctx, 'patricia', steps, 'proof repeated on the same node objects')
+			ctx.count('history:patricia:no-edit')
+			continue
+		index = rng.randrange(len(nodes))
+		if 'hash-one' == first_use:
+			steps.append(['hash', str(index)])
+		node = nodes[index]
+		tested = value
+		kinds = ['set_value'] if 'L' == node[0] else ['set_link', 'prune_link', 'swap_links', 'add_link']
+		if node[2] > 0:
+			kinds.append('set_path')
+		kind = rng.choice(kinds)
+		changed = True
+		if 'set_value' == kind:
+			forged = rng.bytes_(32)
+			steps.append(['set_value', str(index), hx(forged)])
+			if rng.random() < 0.7:
+				tested = forged  # the forged value is also the value presented
+		elif kind in ('set_link', 'prune_link', 'add_link'):
+			present = [slot for slot, link in enumerate(node[3]) if link is not None]
+			absent = [slot for slot, link in enumerate(node[3]) if link is None]
+			if 'add_link' == kind and absent:
+				steps.append(['set_link', str(index), str(rng.choice(absent)), hx(rng.bytes_(32))])
+			elif 'prune_link' == kind:
+				steps.append(['set_link', str(index), str(rng.choice(present)), '_'])
+			else:
+				slot = rng.choice(present)
+				steps.append(['set_link', str(index), str(slot), hx(flip(node[3][slot], rng.randrange(256)))])
+		elif 'swap_links' == kind:
+			first, second = rng.sample(range(16), 2)
+			changed = node[3][first] != node[3][second]
+			steps.append(['swap_links', str(index), str(first), str(second)])
+		else:
+			bit = rng.randrange(4 * node[2])
+			steps.append(['set_path', str(index), hx(flip(node[1], 8 * (bit // 8) + 7 - bit % 8)), str(node[2])])
+		ctx.count(f'history:patricia:edit-{kind}:after-{first_use}')
+		# the hash of the edited node is the hash of its current contents
+		judge_history(ops, ctx, 'patricia', steps + [['hash', str(index)]], f'node hash after an in-place {kind}')
+		# and the proof answers for the edited nodes: the edited node no longer hashes to what anchors / links it
+		final = ['prove', hx(pack(key)), hx(tested), hx(state_hash), fmt_hashes(roots)]
+		expect = None
+		if changed:
+			if 0 == index:
+				expect = f'ok {VERDICTS["UNANCHORED_PATH_TREE"]}'
+			elif 'L' == nodes[-1][0] and tested != (unhx(steps[-1][2]) if 'set_value' == kind else nodes[-1][3]):
+				expect = f'ok {VERDICTS["LEAF_VALUE_MISMATCH"]}'
+			else:
+				expect = f'ok {VERDICTS["UNLINKED_NODE"]}'
+		judge_history(ops, ctx, 'patricia', steps + [final], f'proof after an in-place {kind} of node {index}', expect)
+		# edit and restore: the original answer comes back
+		if rng.random() < 0.3 and 'set_value' == kind:
+			restored = steps + [final, ['set_value', str(index), hx(node[3])], prove_step]
+			judge_history(ops, ctx, 'patricia', restored, 'proof after an in-place edit was undone')
+			ctx.count('history:patricia:edit-and-restore')
+		if len(ops.items) > 2000:
+			ops.settle()
+
+	# MerkleHashBuilder: update, final, update again, final again (final() overwrites the list it holds; the next answer is the
+	# root of what the builder holds then)
+	for _ in range(ctx.scale(120, 1500)):
+		first = rng.choice([0, 1, 2, 3, 4, 5, 7, 8, 9, 16, 17, rng.randrange(1, 40)])
+		second = rng.choice([0, 1, 1, 2, 3, 5, 8])
+		steps = [['update', hx(rng.bytes_(32))] for _ in range(first)] + [['final']]
+		steps += [['update', hx(rng.bytes_(32))] for _ in range(second)] + [['final']]
+		if rng.random() < 0.3:
+			steps += [['update', hx(rng.bytes_(32))] for _ in range(rng.randrange(0, 4))] + [['final']]
+		judge_history(ops, ctx, 'builder', steps, 'root of a builder that is used again after final()')
+		ctx.count(f'history:builder:second-batch-{min(second, 3)}')
+
+	# prove_merkle: the same objects verified, changed in place, verified again
+	for _ in range(ctx.scale(150, 2000)):
+		count = rng.choice([1, 2, 3, 4, 5, 6, 7, 8, 9, 15, 16, 17, 33])
+		leaves = [rng.bytes_(32) for _ in range(count)]
+		levels = o_levels(leaves)
+		position = rng.randrange(count)
+		path = o_path(levels, position)
+		root = levels[-1][0]
+		steps = [['make', hx(leaves[position]), fmt_path(path), hx(root)], ['call']]
+		kind = rng.choice(['set_part', 'set_part_bytes', 'set_leaf_bytes', 'set_root_bytes', 'del_part', 'flip_flag', 'restore'])
+		if not path and kind in ('set_part', 'set_part_bytes', 'del_part', 'flip_flag'):
+			kind = 'set_leaf_bytes'
+		if 'set_part' == kind:
+			spot = rng.randrange(len(path))
+			steps.append(['set_part', str(spot), hx(flip(path[spot][0], rng.randrange(256))), 'L' if path[spot][1] else 'R'])
+		elif 'flip_flag' == kind:
+			spot = rng.randrange(len(path))
+			steps.append(['set_part', str(spot), hx(path[spot][0]), 'R' if path[spot][1] else 'L'])
+		elif 'set_part_bytes' == kind:
+			spot = rng.randrange(len(path))
+			steps.append(['set_part_bytes', str(spot), hx(flip(path[spot][0], rng.randrange(256)))])
+		elif 'del_part' == kind:
+			steps.append(['del_part', str(rng.randrange(len(path)))])
+		elif 'set_root_bytes' == kind:
+			steps.append(['set_root_bytes', hx(flip(root, rng.randrange(256)))])
+		elif 'set_leaf_bytes' == kind:
+			steps.append(['set_leaf_bytes', hx(flip(leaves[position], rng.randrange(256)))])
+		else:
+			steps += [['set_leaf_bytes', hx(flip(leaves[position], 3))], ['call'], ['set_leaf_bytes', hx(leaves[position])]]
+		judge_history(ops, ctx, 'prove_merkle', steps + [['call']], f'audit path verified again after an in-place {kind}')
+		ctx.count(f'history:prove_merkle:{kind}')
+	ops.settle()
+
+	# transactions: hash, edit a field in place, hash again
+	try:
+		from symbolchain.CryptoTypes import PrivateKey
+		from symbolchain.facade.NemFacade import NemFacade
+		from symbolchain.facade.SymbolFacade import SymbolFacade
+	except ImportError:
+		return
+	for chain, facade_class in (('symbol', SymbolFacade), ('nem', NemFacade)):
+		descriptors = load_descriptors(chain)
+		for network in ('testnet', 'mainnet'):
+			facade = facade_class(network)
+			key_pair = facade.KeyPair(PrivateKey(rng.bytes_(32)))
+			candidates = list(descriptors)
+			rng.shuffle(candidates)
+			for descriptor in candidates[:ctx.scale(8, len(candidates))]:
+				full = dict(descriptor)
+				full.update({'signer_public_key': key_pair.public_key, 'deadline': rng.boundary_int(32), 'fee': rng.boundary_int(32)})
+				if 'nem' == chain:
+					full['timestamp'] = rng.boundary_int(32)
+				transaction = facade.transaction_factory.create(full)
+				signature = facade.sign_transaction(key_pair, transaction)
+				facade.transaction_factory.attach_signature(transaction, signature)
+				buffer = transaction.serialize()
+				for kind in ('deadline', 'fee', 'signature', 'signature-in-place', 'twice'):
+					steps = [['load', chain, network, hx(buffer)], ['hash']]
+					if 'deadline' == kind:
+						steps.append(['set', 'deadline', str(rng.boundary_int(32))])
+					elif 'fee' == kind:
+						steps.append(['set', 'fee', str(rng.boundary_int(32))])
+					elif 'signature' == kind:
+						steps.append(['set', 'signature', hx(rng.bytes_(64))])
+					elif 'signature-in-place' == kind:
+						steps.append(['set_bytes_in_place', 'signature', hx(rng.bytes_(64))])
+					else:
+						steps += [['set', 'deadline', str(rng.boundary_int(32))], ['hash'], ['set', 'fee', str(rng.boundary_int(32))]]
+					judge_history(ops, ctx, 'transaction', steps + [['hash']], f'{chain} {descriptor["type"]}: hash after an in-place change of {kind}')
+					ctx.count(f'history:transaction:{chain}:{kind}')
+			if 'symbol' == chain:
+				# aggregates: cosignatures added / removed between two hash calls, transactions hash replaced
+				for _ in range(ctx.scale(4, 40)):
+					embedded = [facade.transaction_factory.create_embedded({**rng.choice(descriptors), 'signer_public_key': key_pair.public_key}) for _ in range(rng.choice([1, 2, 3]))]
+					aggregate = facade.transaction_factory.create({
+						'type': rng.choice(['aggregate_complete_transaction_v2', 'aggregate_bonded_transaction_v2']), 'signer_public_key': key_pair.public_key,
+						'fee': rng.boundary_int(32), 'deadline': rng.boundary_int(32), 'transactions_hash': facade.hash_embedded_transactions(embedded).bytes,
+						'transactions': embedded})
+					facade.transaction_factory.attach_signature(aggregate, facade.sign_transaction(key_pair, aggregate))
+					aggregate.cosignatures.append(facade.cosign_transaction(key_pair, aggregate))
+					buffer = aggregate.serialize()
+					for kind, edit in (
+							('pop-cosignature', ['pop_cosignature']), ('dup-cosignature', ['dup_cosignature']),
+							('transactions-hash', ['set', 'transactions_hash', hx(rng.bytes_(32))])):
+						steps = [['load', 'symbol', network, hx(buffer)], ['hash'], edit, ['hash']]
+						judge_history(ops, ctx, 'transaction', steps, f'symbol aggregate: hash after an in-place {kind}')
+						ctx.count(f'history:transaction:symbol:aggregate-{kind}')
+	ops.settle()
+
+
+# endregion
+
+
 def run(ctx):
 	run_merkle(ctx)
 	run_patricia(ctx)
+	run_histories(ctx)
 	try:
 		importlib.import_module('symbolchain.facade.SymbolFacade')
 		importlib.import_module('symbolchain.facade.NemFacade')
@@ -1297,6 +1701,17 @@ def replay(ctx, payload):
 	print(payload.get('what', '')[:600])
 	case = payload.get('case') or {}
 	request = case.get('request') if isinstance(case, dict) else None
+	history = case.get('history') if isinstance(case, dict) else None
+	if history:
+		ops = Ops(ctx)
+		print('history:')
+		for step in history['steps']:
+			print('  ', ' '.join(step)[:200])
+		answer = judge_history(ops, ctx, history['domain'], history['steps'], 'replayed history', history.get('expect'))
+		print('implementation, recorded:', case.get('implementation'))
+		print('implementation, now     :', answer)
+		ops.settle()
+		return
 	if request:
 		now, oracle = evaluate_request(request)
 		if now is not None:
